@@ -933,6 +933,14 @@ def c09(tier):
             corpus.append("|--\n" + "|\n" * (L - 1) + g)
             corpus.append("-" * L + g + "-" * L + "\n" + " " * L + "|")
             corpus.append(" " * L + "/\n" + "\n".join(" " * (L - 1 - i) + "/" for i in range(L - 1)) + ("\n" if L > 1 else "") + g)
+    # ... and such a glyph diagonally off the end of a run (a column ending above-right of it, a row ending above-left of it ...)
+    for g in "╳╪╫╬═║┼X#+*oO":
+        for L in (1, 2, 3):
+            corpus.append("\n".join([" |"] * L + [g]))
+            corpus.append("\n".join([g] + [" |"] * L))
+            corpus.append("\n".join(["|"] * L + [" " + g]))
+            corpus.append("-" * L + "\n" + " " * L + g)
+            corpus.append(" " * L + g + "\n" + "-" * L)
     # ... and full crosses: two free runs crossing in such a glyph, arms of 1..7 cells on all four sides, in both alphabets
     for g in "┼╪╫╬+X#":
         for arm in (1, 2, 3, 7):
